@@ -361,7 +361,7 @@ class Body:
                         copies[lhs['l']].add((pl['l'], json.dumps(pl['p'][1:])))
                     else:
                         direct[lhs['l']].append((pl, rv['mut']))
-                elif rv['k'] == 'use' and is_place(rv['a']):
+                elif rv['k'] in ('use', 'cast') and is_place(rv['a']):
                     pl = op_place(rv['a'])
                     if not pl['p']:
                         copies[lhs['l']].add((pl['l'], '[]'))
